@@ -304,6 +304,7 @@ func runCase(cs Case, work string) caseOut {
 		go cons.run()
 		stuck := false
 		paced := false
+		pacedOff := false
 		settleFailures := 0
 		// accepted in this generation so far (for the clean-case rule)
 		genAccepted := 0
@@ -353,8 +354,10 @@ func runCase(cs Case, work string) caseOut {
 						gauge("pending_chunks", nil), gauge("queued_chunks", map[string]string{"state": "transient"}), gauge("queued_chunks", map[string]string{"state": "persistent"}))
 				}
 				dropped := int(gauge("dropped_chunks_total", nil))
-				// window + the chunk in the feeder's hand + the chunk in the consumer's hand
-				if resident-dropped > cs.M+2 {
+				// window + the chunk in the feeder's hand + the chunk in the consumer's hand. Judged only while nothing unloaded
+				// is queued: behind unloaded chunks (spilled or recovered) a loaded chunk accepted at a moment when the window was
+				// short legitimately waits in the queue until the feeder gets to it.
+				if resident-dropped > cs.M+2 && gauge("queued_chunks", map[string]string{"state": "persistent"}) == 0 {
 					add("memory-bound", fmt.Sprintf("gen %d %s: %d chunks are held in memory only (no file, not delivered, %d dropped), window is %d", gi, where, resident, dropped, cs.M))
 				}
 				out.phases["paced-observation"]++
@@ -386,7 +389,7 @@ func runCase(cs Case, work string) caseOut {
 			if stuck {
 				break
 			}
-			paced = g.Paced && cs.Producers == 1
+			paced = g.Paced && cs.Producers == 1 && !pacedOff
 			switch op.K {
 			case "A":
 				genAccepted++
@@ -426,11 +429,17 @@ func runCase(cs Case, work string) caseOut {
 					paced = false
 				} else if ok := accept(op.Size); ok {
 					if g.Paced && settleFailures < 3 {
-						// let the feeder move what it can; a correct buffer drains the transient gauge at once
+						// let the feeder move what it can; a correct buffer drains the transient gauge at once unless unloaded chunks
+						// are queued ahead
 						dl := time.Now().Add(2 * time.Second)
 						for gauge("queued_chunks", map[string]string{"state": "transient"}) > 0 {
 							if time.Now().After(dl) {
 								settleFailures++
+								paced = true
+								observe("paced accept that did not settle", cs.Producers) // judged at once: see the rule in observe
+								if settleFailures >= 3 {
+									pacedOff = true // from here on accepts are a burst: no further memory judgement in this generation
+								}
 								break
 							}
 							time.Sleep(300 * time.Microsecond)
